@@ -56,8 +56,17 @@ func cloneJSON(v interface{}) interface{} {
 
 func (w *World) Clone() *World {
 	c := NewWorld()
+	// aliasing is part of a fact state: one object under two names, one record held by two facts
+	subs := map[*facts.Sub]*facts.Sub{}
+	seen := map[*facts.Fact]*facts.Fact{}
 	for k, f := range w.Objs {
-		c.Objs[k] = f.Clone()
+		if cf, ok := seen[f]; ok {
+			c.Objs[k] = cf
+			continue
+		}
+		cf := f.CloneShared(subs)
+		seen[f] = cf
+		c.Objs[k] = cf
 	}
 	for k, v := range w.Vars {
 		c.Vars[k] = v
